@@ -22,8 +22,10 @@ import (
 	"encoding/hex"
 	"errors"
 	"io"
+	"maps"
 	"net/http"
 	"net/url"
+	"slices"
 	"strings"
 	"time"
 
@@ -369,9 +371,13 @@ func (h *genericContextualizer) calculateCacheKey(
 	hash.Write(ttlBytes)
 	hash.Write(sub.Hash())
 
-	for k, v := range values {
+	// the iteration order over a map is random, the cache key must however be stable. The separators
+	// ensure that different sets of values cannot result in the same sequence of bytes.
+	for _, k := range slices.Sorted(maps.Keys(values)) {
 		hash.Write(stringx.ToBytes(k))
-		hash.Write(stringx.ToBytes(v))
+		hash.Write([]byte{0})
+		hash.Write(stringx.ToBytes(values[k]))
+		hash.Write([]byte{0})
 	}
 
 	return hex.EncodeToString(hash.Sum(nil))
